@@ -2,7 +2,7 @@
 (***************************************************************************)
 (* Layer A: memory maps.  Creating a map of a file either fails with an    *)
 (* error - missing file, size not a multiple of 8, or the OS refuses the   *)
-(* mapping, which it does for length 0 - or yields a map whose element     *)
+(* mapping, which it may for length 0 - or yields a map whose element      *)
 (* slice is valid, has size/8 elements and equals the file's content.      *)
 (* While a map is alive its pages are mapped; after it is dropped NOTHING  *)
 (* of that mapping remains mapped (NoLeak).  Changes made through a        *)
@@ -17,8 +17,9 @@ CONSTANT PageSize
 
 PageRound(n) == ((n + PageSize - 1) \div PageSize) * PageSize
 
-\* defined outcome of MemoryMap::new
-NewResult(exists, size) == IF ~exists \/ size % 8 # 0 \/ size = 0 THEN "err" ELSE "ok"
+\* defined outcomes of MemoryMap::new.  The property lets the operating system refuse a mapping; it refuses one of length 0, so an
+\* EMPTY file may be refused - or mapped as an empty slice, which is equally "valid and equal to the file's content".
+NewResults(exists, size) == IF ~exists \/ size % 8 # 0 THEN {"err"} ELSE IF size = 0 THEN {"err", "ok"} ELSE {"ok"}
 
 MappedBytes(vm) == LET S == {r[2] : r \in vm} IN FoldSet(LAMBDA r, acc : acc + r[2], 0, vm)
 =============================================================================
